@@ -180,9 +180,10 @@ call_out ()
 
   while (call_out_time < current_time)
     {
-      /* we increment at the end in case we are interrupted by errors,
-         but we need to use call_out_time + 1 here. */
-      tm = (call_out_time + 1) & (CALLOUT_CYCLE_SIZE - 1);
+      /* The second being swept counts as visited from here on (errors are
+         caught below, so the sweep is never restarted): call_outs added,
+         found or removed by the callbacks are then measured from it. */
+      tm = ++call_out_time & (CALLOUT_CYCLE_SIZE - 1);
       if (call_list[tm] && --call_list[tm]->delta == 0)
         do
           {
@@ -258,7 +259,6 @@ call_out ()
               }
           }
         while (call_list[tm] && call_list[tm]->delta == 0);
-      call_out_time++;
     }
 
   pop_context (&econ);
